@@ -3,8 +3,10 @@
 export GOFLAGS=-mod=mod GOPROXY=off GOSUMDB=off GOTOOLCHAIN=local
 W=/tmp/mutval
 rm -rf $W; git -C /repo worktree prune; git -C /repo worktree add -q --detach $W HEAD
-for d in /tmp/mut/C*/out/m*; do
-  id=$(echo $d | sed 's#/tmp/mut/\(C[0-9]*\)/out/\(m[0-9]\)#\1_\2#')
+SRC=${1:-/tmp/mut}
+for d in $SRC/C*/out/m[0-9]; do
+  id=$(echo $d | sed "s#$SRC/\(C[0-9]*\)/out/\(m[0-9]\)#\1_\2#")
+  if [ -n "$ONLY" ] && ! [[ $id =~ ^($ONLY)_ ]]; then continue; fi
   [ -f $d/patch.diff ] || { echo "$id NOPATCH"; continue; }
   where=$(cat $d/where.txt 2>/dev/null | tr -d '[:space:]'); [ -z "$where" ] && where=.
   cd $W && git checkout -q -- . && git clean -fdq
